@@ -153,6 +153,18 @@ spline of this degree through `n` samples (a line for 2, the parabola for 3, a n
 resampled coefficients and the function the solver integrates coincide.  Numerics themselves are not modelled. -/
 def splineDegree (n : Nat) : Option Nat := if n < 2 then none else some (min 3 (n - 1))
 
+/-- the interpolation routine a branch of `_fill_coeff` calls (regenerated from the source into
+`Gen/FillCubic.lean`): `CubicSpline(old_tlist, old_coeffs)` or `np.interp(full_tlist, old_tlist, old_coeffs)` -/
+inductive Interp
+  | notAKnot
+  | linear
+deriving DecidableEq, Repr
+
+/-- degree of the polynomial pieces of the interpolant through `n` samples (`none`: the call raises) -/
+def Interp.degree : Interp → Nat → Option Nat
+  | .notAKnot, n => splineDegree n
+  | .linear, n => if n = 0 then none else some (min 1 (n - 1))
+
 /-! ## The step function of a channel (specification object) -/
 
 /-- value of the slot of `tl` containing `t`: `cs[i]` for `tl[i] ≤ t < tl[i+1]`, `0` before the first
